@@ -1087,7 +1087,8 @@ class Quaternion(Object3d):
             return other.__class__(qu)
         elif isinstance(other, Vector3d):
             if lazy:
-                darr = self._outer_dask(other, chunk_size=chunk_size)
+                # Rotate by the unit quaternions, as when lazy=False
+                darr = self.unit._outer_dask(other, chunk_size=chunk_size)
                 v_arr = np.empty(darr.shape)
                 if progressbar:
                     with ProgressBar():
